@@ -13,15 +13,17 @@ MANIFEST = {
             "again afterwards; `reachable_rx_never_crashes_proved` / `rx_never_crashes2_proved` (Props/C05Sctp2) lift this to the weaker invariant "
             "`Inv2` that allows channels still waiting for their stream id and partially reliable traffic (FORWARD-TSN building, _maybe_abandon): "
             "`Inv2` holds from `Ep.init` on, is preserved by EVERY input (datagrams, armed timers, tasks, createDataChannel before and after "
-            "start(), send, close while established, bufferedAmountLowThreshold, stop) and no datagram can crash or hang any state reachable that "
-            "way, under one capacity hypothesis (at most 16381 streams carry partially reliable messages; the former stream id capacity `Cap` is "
+            "start(), send, close while established, bufferedAmountLowThreshold, stop, and arming ANY one-shot application event handler that re-enters "
+            "send() from inside open/close/bufferedamountlow/message/datachannel events - `react_preserves_inv2`) and no datagram can crash or hang any "
+            "state reachable that way, handlers armed, under one capacity hypothesis (send() calls + armed handlers <= 16381, the number of streams a "
+            "FORWARD-TSN can list; the former stream id capacity `Cap` is "
             "gone since the fix that closes a channel which cannot get a stream id <= 65535 is modelled); every wire parser (SCTP packets/chunks/parameters/RE-CONFIG, RTP, header extensions, RTCP, REMB, H.264 and VP8 "
             "payload descriptors) returns a value or ValueError for every input (`parsers_total`); RTP/RTCP: the dispatch around the parsers "
             "(`_recv_next` demultiplexing, `_handle_rtp_data`, `_handle_rtcp_data`, receiver and sender RTCP/RTP handlers) is total on states "
             "satisfying the component invariants and `still_alive` shows these are preserved. The models are tied to the real code by replaying "
             "recorded runs of REAL endpoints / transports / receivers / senders with hostile datagrams injected in every protocol state.",
-    "note": "Partial: `rx_never_crashes_proved` assumes no queued message of a channel still waiting for its stream id and only reliable traffic "
-            "in the send queues; `rx_never_crashes2_proved` / `reachable_rx_never_crashes_proved` drop both (a peer occupying every stream id of the "
+    "note": "Partial: `rx_never_crashes_proved` assumes no queued message of a channel still waiting for its stream id, only reliable traffic "
+            "in the send queues and NO armed re-entrant handler (a handler may send on a partially reliable channel opened by the peer); `rx_never_crashes2_proved` / `reachable_rx_never_crashes_proved` drop both (a peer occupying every stream id of the "
             "local parity is harmless now: the channel is closed); close() outside ESTABLISHED is only shown "
             "to raise nothing but the KeyError of an unregistered channel (see ASSUMPTIONS); work bounds are explicit only for SACK gap expansion, the NACK generator and retransmissions; real "
             "memory use, the decoder thread and PyAV are outside; the CPU-time and still-alive clauses are oracle-checked on the implementation.",
@@ -30,15 +32,16 @@ MANIFEST = {
 ASSUMPTIONS = [
     "SCTP part (`rx_never_crashes_proved`): the endpoint state satisfies `Inv` (indices of `dataChannels`/`dcQueue` valid, started => ids and remote "
     "port known, timers armed iff their chunk is present, reassembly TSNs accepted, no queued message of a channel still waiting for its stream id, "
-    "nothing partially reliable queued for sending), the datagram is a byte string and the state cookie is at most 1000 bytes",
-    "SCTP part, second layer (`rx_never_crashes2_proved`, `reachable_rx_never_crashes_proved`, Props/C05Sctp2): `Inv2 U e` (as `Inv` without the "
-    "last two clauses, plus: every chunk / queued message subject to partial reliability is on a stream of the fixed set `U`, adjacent chunks of "
-    "sent_queue ++ outbound_queue are on the same stream or a message boundary, FORWARD-TSN streams are distinct members of `U`, an armed T1/T2 "
-    "holds a serialisable chunk, queued retransmission tasks are serialisable) with the capacity hypothesis `U.length <= 16381`; "
-    "API preconditions of the run theorem: createDataChannel with "
-    "label/protocol < 65536 bytes, 32-bit reliability parameter, explicit id in 0..65534; send/close/threshold on existing channel objects; "
-    "partially reliable sends only on streams of `U`; close() while ESTABLISHED; timers fire only when armed; before start() only "
-    "createDataChannel and its flush task",
+    "nothing partially reliable queued for sending, no re-entrant application handler armed), the datagram is a byte string and the state cookie is at most 1000 bytes",
+    "SCTP part, second layer (`rx_never_crashes2_proved`, `reachable_rx_never_crashes_proved`, `react_preserves_inv2`, Props/C05Sctp2): "
+    "`Inv2 B e` (as `Inv` without its last three clauses, plus: there is a set `U` of stream ids with |U| + armed handlers + B <= 16381 such "
+    "that every chunk / queued message subject to partial reliability is on a stream of `U`, adjacent chunks of sent_queue ++ outbound_queue "
+    "are on the same stream or a message boundary, FORWARD-TSN streams are distinct members of `U`; an OPEN channel is reliable or has its "
+    "stream id; a registered stream id is the id of its channel object; an armed T1/T2 holds a serialisable chunk, queued retransmission "
+    "tasks are serialisable); ARBITRARY armed handlers (`reactions`: any kind, any channel index); API preconditions of the run theorem: "
+    "createDataChannel with label/protocol < 65536 bytes, 32-bit reliability parameter, explicit id in 0..65534; send/close/threshold on "
+    "existing channel objects; send() and arming a handler each take one unit of the budget B <= 16381; close() while ESTABLISHED; timers "
+    "fire only when armed; before start() only createDataChannel, its flush task and arming handlers",
     "hostile datagrams that are valid protocol actions under the correct verification tag (fresh DATA, SACK/FORWARD-TSN ahead of the truth, stream "
     "resets, ABORT, mutated real datagrams ...) are only required not to crash or hang the endpoint; non-forging datagrams must also leave the "
     "association able to carry valid traffic afterwards",
@@ -72,7 +75,7 @@ class World(S.WorldComponent):
     name = "sctp"
     prop = "C05"
     theorems = ["rx_never_crashes_proved", "rx_no_hang", "sctp_parsers_total", "rx_never_crashes2_proved",
-                "reachable_rx_never_crashes_proved"]
+                "reachable_rx_never_crashes_proved", "react_preserves_inv2"]
     mix = [("hostile", False, 2), ("hostile-benign", False, 3), ("hostile-benign", True, 1), ("strike", False, 1)]
     quick = (40, 220)
     thorough = (250, 400)
